@@ -146,7 +146,7 @@ theorem secCreate_ok {g : Graph} {isEpic : Bool} {epicId title body : String} {f
 theorem freshTask_TaskOK {isEpic : Bool} {id uuid eid title body : String} {now : Time} (hpos : 0 < now)
     (htitle : Text.isBlank title = false) : TaskOK (freshTask isEpic id uuid eid title body now) := by
   have hne : now ≠ 0 := by tomega
-  refine ⟨?_, fun _ => rfl, fun hx => absurd rfl hx, fun _ => rfl, by simp [freshTask], htitle, ?_, hne⟩
+  refine ⟨?_, fun hx => absurd rfl hx, fun _ => rfl, by simp [freshTask], htitle, ?_, hne⟩
   · symm
     apply maxTimes_eq
     · simp [freshTask]
